@@ -98,13 +98,19 @@ class Truth:
             bs = self.decls[bq]["spec"]
             out |= {a["name"] for a in bs.get("attrs", []) + bs.get("inst_attrs", [])}
             out |= {f["name"] for f in bs.get("methods", [])}
+            if bs.get("extras", {}).get("seq_base"):
+                out |= {"count", "index"}            # members of collections.abc.Sequence
             out |= self.ancestor_attr_names(bs, seen)
         return out
 
     def reassigns_inherited(self, d) -> bool:
         """`self.x = v` (no annotation) in a constructor for an x some ancestor defines: not a new attribute"""
-        return bool(d.get("inst")) and d["spec"].get("ann") is None and d["owner"] is not None \
-            and d["spec"]["name"] in self.ancestor_attr_names(d["owner"])
+        if not (d.get("inst") and d["spec"].get("ann") is None and d["owner"] is not None):
+            return False
+        names = self.ancestor_attr_names(d["owner"])
+        if d["owner"].get("extras", {}).get("seq_base"):
+            names |= {"count", "index"}
+        return d["spec"]["name"] in names
 
     def alias_suffix_victim(self, d) -> bool:
         """the declaration (or its top-level owner) is re-exported by a package whose __init__ also re-exports, under an
@@ -129,8 +135,9 @@ class Truth:
         for (pq, name), (target, alias) in self.reexports.items():
             if q == target or q.startswith(target + "."):
                 return True
-            # the tool matches re-export keys by suffix: any key ending with this declaration's name counts
-            if target.split(".")[-1] and d["spec"]["name"] and target.endswith(d["spec"]["name"]):
+            # the tool takes a declaration for re-exported when its qualified name ENDS with the qualified name written
+            # in the import (Theorems/C04a ViaNameImport; suffix_interference is the known weakness): not judged
+            if d["q"].endswith(target):
                 return True
         for mods in self.star_modules.values():
             if mq in mods:
@@ -895,6 +902,9 @@ def check_refs(fail, stubs: Stubs, safe, truth: Truth = None):
                                 reexport_stub_paths.add(f"{p}/{x['name'].lstrip('_')}.sdsstub")
                                 moved_names.setdefault(e["module"], set()).add(x["name"])
         for m in pkg["modules"]:
+            if m.get("overload_fn"):
+                returned_names.add("v")
+
             def walk(c):
                 if c.get("extras", {}).get("overload"):
                     returned_names.add("v")
